@@ -36,7 +36,48 @@ IV = [0.5, 1.0, 2.0, 2.75, 4.0, 6.0, 10.0]
 _env = {}
 
 
+def run_procnode(spec):
+    """A branch-level flag (store_schema) over a compartment that holds a process: the process node is emitted too
+    (serialized by name and parameters). The process changes one of its parameters at every invocation: every
+    row shows the parameters the process had at that row's time."""
+    from vivarium.core.engine import Engine
+    from vivarium.core.process import Process
+    V = Viol()
+
+    class Stepper(Process):
+        def ports_schema(self):
+            return {'S': {'n': {'_default': 0}}}
+
+        def calculate_timestep(self, states):
+            return spec['ts']
+
+        def next_update(self, timestep, states):
+            self.parameters['gen'] = self.parameters.get('gen', 0) + 1
+            return {'S': {'n': 1}}
+    try:
+        e = Engine(processes={'agent': {'stepper': Stepper({'gen': 0})}}, topology={'agent': {'stepper': {'S': ('st',)}}},
+                   store_schema={'agent': {'_emit': True}}, display_info=False)
+        for iv in spec['runs']:
+            e.update(iv)
+        data = e.emitter.get_data()
+        for t in sorted(data):
+            node = data[t].get('agent', {}).get('stepper')
+            # the row at the k-th tick is emitted after k invocations... plus the one that started the interval
+            # in flight at that time: invocations happen at 0, ts, 2 ts, ... and rows at ts, 2 ts, ...
+            k = int(round(t / spec['ts']))
+            want = "'gen': %d" % (k if t > 0 else 0)
+            V.check('row_content', isinstance(node, str) and node.startswith('!ProcessSerializer[') and want in node and
+                    data[t]['agent']['st']['n'] == k,
+                    lambda: ('row at t=%r: the emitted process node does not show the parameters the process had then (%s)' % (t, want),
+                             node, data[t]['agent'].get('st')))
+    except Exception as ex:
+        V.check('no_exception', False, ('procnode case raised', type(ex).__name__, str(ex)[:200]))
+    return {'viol': list(V), 'evals': V.evals, 'nontrivial': True, 'classes': ['procnode'], 'summary': {'runs': len(spec['runs'])}}
+
+
 def gen(r, tier, i):
+    if i % 300 == 11:
+        return {'family': 'procnode', 'ts': r.choice([0.5, 1.0, 2.0]), 'runs': [r.choice([2.0, 4.0]) for _ in range(r.randint(1, 3))]}
     if r.random() < 0.06:
         return gen_flat(r)
     n = r.randint(1, 3)
@@ -430,6 +471,8 @@ def run_flat(spec):
 
 
 def run(spec):
+    if spec.get('family') == 'procnode':
+        return run_procnode(spec)
     if spec.get('family') == 'flat':
         return run_flat(spec)
     V = Viol()
